@@ -17,7 +17,7 @@ from ..ctx import CTX, RunTooBig
 from ..history import History, canon, canon_outcome, digest
 from ..rng import Streams, chance, pick, weighted
 from ..sim import apply_op, build_sim, locations, readable, stack_state, watch_calls
-from ..world import gen_inputs, gen_request, gen_situation, gen_world
+from ..world import gen_inputs, gen_request, gen_situation, gen_value, gen_world
 from . import Result
 
 PROPERTY = "C17"
@@ -40,9 +40,10 @@ COMPONENTS = {
 UNITS = [("month", 50), ("year", 22), ("eternity", 8), ("day", 10), ("week", 6), ("weekday", 4)]
 
 
-def gen_config(rng: random.Random, names, profile: str, force=None) -> dict:
+def gen_config(rng: random.Random, names, profile: str, force=None, caching_only=None) -> dict:
     """force: a tuple of 5 booleans (trace, memory, priority, drop, blacklist) for sweeps."""
-    caching_only = profile != "acyclic"
+    if caching_only is None:
+        caching_only = profile != "acyclic"
     if force is None:
         force = (chance(rng, 0.5), chance(rng, 0.6), chance(rng, 0.4), chance(rng, 0.35), chance(rng, 0.35))
     trace, memory, priority, drop, black = force
@@ -83,7 +84,24 @@ def generate(seed: int, tier: str) -> dict:
     inputs = gen_inputs(ir, world, p=0.45)
     orr = st["ops"]
     ops = []
+    # Input changes in mid-history (a corrected input, a deletion) do not invalidate
+    # what was computed from the old input; a run that does not cache recomputes it.
+    # Histories that change inputs are therefore compared under cache-preserving
+    # configurations only (as spiral worlds are).
+    changes_inputs = chance(orr, 0.3)
     for _ in range(orr.randint(4, 8 if tier == "quick" else 12)):
+        r0 = orr.random() if changes_inputs else 1.0
+        if inputs and r0 < 0.14:
+            # an input corrected later: same variable and period, another value - under
+            # a memory configuration the two writes may meet different memory pressure
+            i = pick(orr, inputs)
+            spec = next(v for v in world["variables"] if v["name"] == i[0])
+            ops.append({"do": ["set_input", i[0], i[1], [gen_value(orr, spec, world) for _ in range(orr.randint(1, 3))]]})
+            continue
+        if inputs and r0 < 0.2:
+            i = pick(orr, inputs)
+            ops.append({"do": ["delete_arrays", i[0]] if chance(orr, 0.5) else ["delete_arrays", i[0], i[1]]})
+            continue
         if inputs and chance(orr, 0.15):
             i = pick(orr, inputs)
             if world_unit(world, i[0]) != "eternity" or i[1] != "ETERNITY":
@@ -93,18 +111,18 @@ def generate(seed: int, tier: str) -> dict:
     fr = st["faults"]
     if profile == "acyclic" and chance(fr, 0.3):
         k = fr.randrange(len(ops))
-        if ops[k]["do"][0] != "get_array":
+        if ops[k]["do"][0].startswith("calculate"):
             ops[k]["fault"] = {"site": fr.randint(1, 6)}
     kr = st["knobs"]
     names = [v["name"] for v in world["variables"]]
     knobs = {"max_spiral_loops": kr.randint(1, 3)}
     if chance(kr, 0.08 if tier == "quick" else 0.15):
         configs = [
-            gen_config(kr, names, profile, force=tuple(bool(m >> b & 1) for b in range(5)))
+            gen_config(kr, names, profile, force=tuple(bool(m >> b & 1) for b in range(5)), caching_only=True if changes_inputs else None)
             for m in range(1, 32)
         ]
     else:
-        configs = [gen_config(kr, names, profile) for _ in range(kr.randint(3, 6))]
+        configs = [gen_config(kr, names, profile, caching_only=True if changes_inputs else None) for _ in range(kr.randint(3, 6))]
     return {
         "format": 1,
         "property": PROPERTY,
@@ -223,6 +241,10 @@ def run_config(scn, world: World, cfg: dict, res: Result, H: History, reference=
             if op.get("fault"):
                 plan = {op["fault"]["site"]: {"kind": "raise_any"}}
             out = apply_op(sim, world, op["do"], plan)
+            if op["do"][0] == "set_input" and out[0] == "ok":
+                held.add((op["do"][1], _pstr(op["do"][2])))
+            elif op["do"][0] == "delete_arrays":
+                held = {k for k in held if k[0] != op["do"][1]}
             frames_total += len(CTX.frames)
             fired = bool(CTX.fired)
             outcomes.append((canon_outcome(out), fired))
